@@ -9,6 +9,10 @@ sid = sys.argv[1]
 d = os.path.join(V, "seeded", sid)
 meta = json.load(open(os.path.join(d, "meta.json")))
 pids = sys.argv[2:] or [meta["property"]]
+import fcntl
+_lock = open("/tmp/verif-repo.lock", "a+")
+fcntl.flock(_lock, fcntl.LOCK_EX)   # nobody else checks or patches /repo while the patch is applied
+os.environ["VERIF_REPO_LOCK_HELD"] = "1"
 st = subprocess.run(["git", "-C", "/repo", "status", "--porcelain", "--untracked-files=no"], capture_output=True, text=True).stdout
 assert not st.strip(), "/repo has uncommitted changes"
 r = subprocess.run(["git", "-C", "/repo", "apply", "--whitespace=nowarn", os.path.join(d, "patch.diff")], capture_output=True, text=True)
